@@ -20,7 +20,7 @@ func init() {
 		ID: "C18",
 		Explain: "Static necessary conditions for 'heur.SEE(b, m, t) answers whether the minimax over least-valuable-attacker capture sequences on the target square is >= t', decided on a model of the swap loop built from SSA (loop-header phis, test chain, back edges), never from text; all matching is on normalised expressions (conversions dropped, &^ = & ^, swapped/negated comparisons, commutative operands sorted) in which calls of single-block pure chess-3 helpers are replaced by what they return, so helper extraction, hoisting and De Morgan rewrites do not change a verdict. " +
 			"R1: every attack pattern in SEE is intersected with exactly the piece kinds that move that way, pawn attackers use the opposite colour's capture pattern, and the initial attacker set covers both pawn colours, knight, both slider kinds and king. " +
-			"R2: one loop iteration is simulated along every path for every value the per-side marker can hold (its loads, locals fed from it, stores and all comparisons among them evaluated concretely, so switch/fallthrough, if-chains over a `phase` local and range tests read the same); on every arrival a kind is tested only when every strictly cheaper kind (PieceValues read from the literal) is exhausted for the side to move, either by a failed test in this iteration or by a `start` marker value that is stored only where that exhaustion holds and only encodes kinds whose attacker set cannot grow by x-ray; Pawn..Queen are all tested; the king is decided last through `attackers & occ &^ Colors[stm]`; a back edge without capture is never taken for any marker value. " +
+			"R2: one loop iteration is simulated along every path for every value the per-side marker can hold (its loads, locals fed from it, stores and all comparisons among them evaluated concretely, so switch/fallthrough, if-chains over a `phase` local and range tests read the same); on every arrival a kind is tested only when every strictly cheaper kind (PieceValues read from the literal) is exhausted for the side to move, either by a failed test in this iteration or by a `start` marker value that is stored only where that exhaustion holds and only encodes kinds whose attacker set cannot grow by x-ray; Pawn..Queen are all tested; the king is decided last through `attackers & occ &^ Colors[stm] != 0`, used as a branch condition or as a value inside the returned expression; a back edge without capture is never taken for any marker value. " +
 			"R3: each capture branch subtracts a value equal to PieceValues of the tested kind from the running balance, removes exactly the lowest bit of the tested set from the occupancy, leaves early iff balance < parity (0 for the defender's turn, 1 for the attacker's) returning the parity's verdict; parity flips once per capture. " +
 			"R4: after a Pawn/Bishop/Queen capture diagonal sliders, after a Rook/Queen capture orthogonal sliders are re-read from the target square with the updated occupancy and or-ed to the carried set; every selection and the king test mask the attacker set with the current occupancy. " +
 			"R5: the mover leaves the occupancy before the first attacker computation, an en-passant victim leaves it at CaptureSq; SEE returns false before the loop iff PieceValues[piece on CaptureSq] + promoVal - threshold < 0 and true iff PieceValues[mover] - PieceValues[captured] + threshold <= 0 (the loop needs a positive balance on entry), the balance entering the loop is that same risk-minus-gain term, promoVal = PieceValues[promo]-PieceValues[Pawn] only for promotions; the first reply is by the opponent and sides alternate. " +
@@ -430,6 +430,8 @@ type c18Model struct {
 	tests, oddTests         []*c18Test
 	promoNote               string
 	phiSel                  map[*ssa.Phi]ssa.Value // phis resolved along the edge currently followed by retTable
+	kingE                   *c18E                  // "enemy attackers remain" comparison assumed to have value kingV by parEval
+	kingV                   int64
 }
 
 func (m *c18Model) x(v ssa.Value) *c18E { return m.b.e(v, nil) }
@@ -958,6 +960,9 @@ func (m *c18Model) parEval(e *c18E, r int64) (int64, bool) {
 	if m.resE != nil && e == m.resE {
 		return r, true
 	}
+	if m.kingE != nil && e == m.kingE {
+		return m.kingV, true
+	}
 	b2i := func(b bool) int64 {
 		if b {
 			return 1
@@ -1009,8 +1014,24 @@ func (m *c18Model) retTable(from, to *ssa.BasicBlock) (even, odd bool, ok bool) 
 	if m.res == nil {
 		return false, false, false
 	}
-	m.phiSel = map[*ssa.Phi]ssa.Value{}
 	defer func() { m.phiSel = nil }()
+	ret := m.leave(from, to)
+	if ret == nil || len(ret.Results) != 1 {
+		return false, false, false
+	}
+	e, ok1 := m.parEval(m.x(ret.Results[0]), m.resEntry)
+	o, ok2 := m.parEval(m.x(ret.Results[0]), m.resEntry^1)
+	return e != 0, o != 0, ok1 && ok2
+}
+
+// leave follows control from -> to (to == nil: from itself returns) through plain jumps to the Return
+// that ends the function, recording in m.phiSel which value every phi on the way takes.
+func (m *c18Model) leave(from, to *ssa.BasicBlock) *ssa.Return {
+	m.phiSel = map[*ssa.Phi]ssa.Value{}
+	if to == nil {
+		ret, _ := c18Last(from).(*ssa.Return)
+		return ret
+	}
 	for hops := 0; hops < 4; hops++ {
 		idx := -1
 		for i, p := range to.Preds {
@@ -1019,7 +1040,7 @@ func (m *c18Model) retTable(from, to *ssa.BasicBlock) (even, odd bool, ok bool) 
 			}
 		}
 		if idx < 0 || to == m.H {
-			return false, false, false
+			return nil
 		}
 		for _, in := range to.Instrs {
 			if ph, isp := in.(*ssa.Phi); isp {
@@ -1028,19 +1049,14 @@ func (m *c18Model) retTable(from, to *ssa.BasicBlock) (even, odd bool, ok bool) 
 		}
 		switch last := c18Last(to).(type) {
 		case *ssa.Return:
-			if len(last.Results) != 1 {
-				return false, false, false
-			}
-			e, ok1 := m.parEval(m.x(last.Results[0]), m.resEntry)
-			o, ok2 := m.parEval(m.x(last.Results[0]), m.resEntry^1)
-			return e != 0, o != 0, ok1 && ok2
+			return last
 		case *ssa.Jump:
 			from, to = to, to.Succs[0]
 		default:
-			return false, false, false
+			return nil
 		}
 	}
-	return false, false, false
+	return nil
 }
 
 func (m *c18Model) kindsBelow(k int64) uint {
@@ -1493,11 +1509,57 @@ func (m *c18Model) r2(c *Ctx) {
 	factsAt := func(b *ssa.BasicBlock) (uint, bool) { f, ok := sim.in[b]; return f, ok }
 	// king tests: X &^ Colors[stm] != 0
 	type kingTest struct {
-		iff   *ssa.If
+		iff   *ssa.If // branch form: the comparison is an If condition ...
 		pos   []*c18E
 		nz, z *ssa.BasicBlock
+		blk   *ssa.BasicBlock // ... value form: it is part of the expression returned when control leaves blk -> to
+		to    *ssa.BasicBlock // nil: blk itself returns
+		pred  *c18E
 	}
 	var kings []kingTest
+	// isKingPred: e is `X != 0` / `X == 0` with Colors[stm] complemented out of X
+	isKingPred := func(e *c18E) ([]*c18E, bool) {
+		if (e.op != "ne" && e.op != "eq") || len(e.a) != 2 {
+			return nil, false
+		}
+		x := e.a[0]
+		if x.isConst(0) {
+			x = e.a[1]
+		} else if !e.a[1].isConst(0) {
+			return nil, false
+		}
+		pos, neg := x.andLeaves()
+		for _, q := range neg {
+			if q.op == "colors" && c18Same(q.a[0], m.stmE) {
+				return pos, true
+			}
+		}
+		return nil, false
+	}
+	var findPred func(e *c18E, depth int) (*c18E, []*c18E)
+	findPred = func(e *c18E, depth int) (*c18E, []*c18E) {
+		if pos, ok := isKingPred(e); ok {
+			return e, pos
+		}
+		if depth > 6 {
+			return nil, nil
+		}
+		if ph, ok := e.v.(*ssa.Phi); ok && e.op == "phi" {
+			if sel, ok := m.phiSel[ph]; ok && sel != e.v {
+				return findPred(m.x(sel), depth+1)
+			}
+			return nil, nil
+		}
+		switch e.op {
+		case "eq", "ne", "lnot", "xor":
+			for _, a := range e.a {
+				if p, pos := findPred(a, depth+1); p != nil {
+					return p, pos
+				}
+			}
+		}
+		return nil, nil
+	}
 	understood := map[*ssa.BasicBlock]bool{m.H: true}
 	for _, t := range m.tests {
 		understood[t.iff.Block()] = true
@@ -1511,11 +1573,29 @@ func (m *c18Model) r2(c *Ctx) {
 			pos, neg := x.andLeaves()
 			for _, q := range neg {
 				if q.op == "colors" && c18Same(q.a[0], m.stmE) && !understood[b] {
-					kings = append(kings, kingTest{iff, pos, nz, z})
+					kings = append(kings, kingTest{iff: iff, pos: pos, nz: nz, z: z, blk: b})
 					understood[b] = true
 				}
 			}
 		}
+	}
+	// value form: the comparison's result is used in the returned expression instead of in a branch
+	for _, b := range m.fn.Blocks {
+		if !m.H.Dominates(b) || len(b.Succs) > 1 {
+			continue
+		}
+		var to *ssa.BasicBlock
+		if len(b.Succs) == 1 {
+			if to = b.Succs[0]; m.H.Dominates(to) {
+				continue // stays in the loop
+			}
+		}
+		if ret := m.leave(b, to); ret != nil && len(ret.Results) == 1 {
+			if p, pos := findPred(m.x(ret.Results[0]), 0); p != nil {
+				kings = append(kings, kingTest{pos: pos, blk: b, to: to, pred: p})
+			}
+		}
+		m.phiSel = nil
 	}
 	// branches of the chain this rule cannot read turn a would-be violation into "undecided":
 	// an If reached by the simulation, outside every capture branch, that is neither a test, the king
@@ -1569,8 +1649,13 @@ func (m *c18Model) r2(c *Ctx) {
 	}
 	// (b) king last, masked, verdict
 	for _, k := range kings {
-		pos := c18Pos(k.iff)
-		if have, reached := factsAt(k.iff.Block()); !reached || all&^have == 0 {
+		pos := c18BlockPos(k.blk)
+		if k.iff != nil {
+			pos = c18Pos(k.iff)
+		} else if p := k.pred.pos(); p.IsValid() {
+			pos = p
+		}
+		if have, reached := factsAt(k.blk); !reached || all&^have == 0 {
 			c.Ok(rule, "king-last", pos, "the enemy-attackers-remain test is reached only when Pawn..Queen are exhausted for the side to move")
 		} else {
 			viol("king-last", pos, "the king decision is reachable while %s of the side to move may still attack", m.kindSet(all&^have))
@@ -1588,8 +1673,20 @@ func (m *c18Model) r2(c *Ctx) {
 		default:
 			c.Undec("C18.R4", "mask:king", pos, "the king test is not `attackers & occ &^ Colors[stm]` over the loop-carried sets")
 		}
-		ez, oz, okz := m.retTable(k.iff.Block(), k.z)
-		en, on, okn := m.retTable(k.iff.Block(), k.nz)
+		var ez, oz, okz, en, on, okn bool
+		if k.iff != nil {
+			ez, oz, okz = m.retTable(k.blk, k.z)
+			en, on, okn = m.retTable(k.blk, k.nz)
+		} else {
+			m.kingE, m.kingV = k.pred, 0
+			if k.pred.op == "eq" { // the comparison is true when NO enemy attacker is left
+				m.kingV = 1
+			}
+			ez, oz, okz = m.retTable(k.blk, k.to)
+			m.kingV = 1 - m.kingV
+			en, on, okn = m.retTable(k.blk, k.to)
+			m.kingE = nil
+		}
 		switch {
 		case !okz || !okn:
 			c.Undec(rule, "king-verdict", pos, "both outcomes of the king test must return a function of the parity flag")
@@ -2325,6 +2422,9 @@ func init() {
 		Mutant{Name: "C18.R2-marker-without-case", Prop: "C18", File: see,
 			Old: "start[stm] = Bishop\n", New: "start[stm] = Rook\n",
 			Expect: "C18.R2/marker:Rook"},
+		Mutant{Name: "C18.R2-king-verdict-value-form-inverted", Prop: "C18", File: see,
+			Old: "if attackers & ^b.Colors[stm] != 0 {\n\t\t\t\treturn res == 0\n\t\t\t}\n\t\t\treturn res == 1", New: "return (attackers&^b.Colors[stm] != 0) == (res == 1)",
+			Expect: "C18.R2/king-verdict"},
 		Mutant{Name: "C18.R2-king-captures-into-attack", Prop: "C18", File: see,
 			Old: "if attackers & ^b.Colors[stm] != 0 {\n\t\t\t\treturn res == 0\n\t\t\t}", New: "if attackers & ^b.Colors[stm] != 0 {\n\t\t\t\treturn res == 1\n\t\t\t}",
 			Expect: "C18.R2/king-verdict"},
